@@ -204,7 +204,10 @@ def gen_ti(r):
     cnt = [r.choice([0, 0, 1, 2, 3, 4, 8, r.randint(0, 12)]) for _ in range(n)]
     if not hs:
         cnt = [0] * n
-    return "TI1D %d %d 0 1 %d %s %s %s" % (per, hs, n, V.hexf(w), " ".join(map(V.hexf, data)), " ".join(map(str, cnt)))
+    cmd = "TI1D"
+    if not per and r.random() < 0.4:
+        cmd = "TI1DG"      # count grid with its own geometry (origin w, width w) on a colvar of width 2w from 0
+    return "%s %d %d 0 1 %d %s %s %s" % (cmd, per, hs, n, V.hexf(w), " ".join(map(V.hexf, data)), " ".join(map(str, cnt)))
 
 
 def oracle_ti(line, out):
@@ -216,6 +219,8 @@ def oracle_ti(line, out):
     w = fr(float.fromhex(t[6]))
     data = [fr(float.fromhex(x)) for x in t[7:7 + n]]
     cnt = [int(x) for x in t[7 + n:7 + 2 * n]]
+    if out.startswith("ERR grid") and t[0] == "TI1DG":
+        return "ti1d:grid-geometry", "a gradient grid built on a count grid with a custom geometry (%d bins of width %r from %r) did not take that geometry: %s" % (n, float(w), float(w), out)
     if out.startswith("ERR"):
         return "ti1d:setup", "the harness could not build the grid: " + out
     parts = out.split("|")
@@ -235,9 +240,10 @@ def oracle_ti(line, out):
     for i in range(n + 1):
         if not close(col[i], float(S[i] - mn), 1e-11):
             return "ti1d:cumsum", "A[%d] = %r but cumulative sum minus its minimum is %r" % (i, col[i], float(S[i] - mn))
+    org = w if t[0] == "TI1DG" else Fr(0)
     for i in range(min(len(xi), n + 1)):
-        if abs(xi[i] - float(i * w)) > 1e-5 * max(1.0, abs(float(i * w))):
-            return "ti1d:abscissa", "xi[%d] = %r, expected %r" % (i, xi[i], float(i * w))
+        if abs(xi[i] - float(org + i * w)) > 1e-5 * max(1.0, abs(float(org + i * w))):
+            return "ti1d:abscissa", "xi[%d] = %r, expected %r (grid origin %r, grid width %r)" % (i, xi[i], float(org + i * w), float(org), float(w))
     return None
 
 
@@ -489,7 +495,7 @@ def check(run):
         else:
             ncnt = [int(x) for x in t[7 + int(t[5]):]]
             run.count(c, int(t[5]) >= 2 and t[1] == "1")
-            run.dist("ti1d:per=%s,samples=%s,empty_bins=%s" % (t[1], t[2], "yes" if (t[2] == "1" and 0 in ncnt) else "no"))
+            run.dist("ti1d:per=%s,samples=%s,empty_bins=%s%s" % (t[1], t[2], "yes" if (t[2] == "1" and 0 in ncnt) else "no", ",custom-grid" if t[0] == "TI1DG" else ""))
             tie("ti1d", c, io.split("|")[0], mo, 1e-11)
             bad = oracle_ti(c, io)
         if bad:
@@ -902,7 +908,9 @@ def gen_e2e(r, k):
     same = r.random() < 0.4
     incl = r.random() < 0.5
     return {"id": "e2e%d" % k, "nd": nd, "vars": vars_, "steps": steps, "full": r.choice([1, 2, 4]), "apply": r.random() < 0.5,
-            "ext": ext, "freq": freq, "same": same, "incl": incl, "fscale": fscale}
+            "ext": ext, "freq": freq, "same": same, "incl": incl, "fscale": fscale,
+            # a custom `grid { ... }` block in the abf bias: half the width, one bin cut off at both ends (non-periodic variables)
+            "gridblock": (not ext) and all(not v["per"] for v in vars_) and r.random() < 0.35}
 
 
 def e2e_scenario(c):
@@ -922,7 +930,12 @@ def e2e_scenario(c):
             L += ["    period %r" % (v["hi"] - v["lo"]), "    wrapAround %r" % (0.5 * (v["hi"] + v["lo"]))]
         L += ["  }", "}"]
     L += ["abf {", "  name a", "  colvars " + " ".join("v%d" % d for d in range(nd)), "  fullSamples %d" % c["full"],
-          "  applyBias %s" % ("on" if c["apply"] else "off"), "}", "EOF", "show cv 0 energy 0 bias 0 atomf 0"]
+          "  applyBias %s" % ("on" if c["apply"] else "off")]
+    if c.get("gridblock"):
+        L += ["  grid {", "    widths " + " ".join(repr(v["w"] / 2) for v in c["vars"]),
+              "    lower_boundaries " + " ".join(repr(v["lo"] + v["w"] / 2) for v in c["vars"]),
+              "    upper_boundaries " + " ".join(repr(v["hi"] - v["w"] / 2) for v in c["vars"]), "  }"]
+    L += ["}", "EOF", "show cv 0 energy 0 bias 0 atomf 0"]
     for z, e in c["steps"]:
         for d in range(nd):
             L.append("pos %d 0 0 %s" % (d + 1, V.hexf(z[d])))
@@ -996,6 +1009,17 @@ def e2e(run, r, quick, exe=None, model=None):
                     rcm, mo, em = V.run_lines(model, [ml])
                     if not mo or not same(parse_floats(mo[0].split()[1:]), inc):
                         run.mismatch("abf-site-divergence", c["id"] + ": " + ml[:300], " ".join(parts[3].split()[:12]), (mo[0] if mo else em)[:300])
+        if c.get("gridblock"):
+            run.dist("e2e:custom-grid-block")
+            try:
+                _, gd_, _ = read_multicol(os.path.join(d, c["id"] + ".grad"))
+                _, cd_, _ = read_multicol(os.path.join(d, c["id"] + ".count"))
+                want = [(v["lo"] + v["w"] / 2, v["w"] / 2, 2 * v["n"] - 2, 0) for v in c["vars"]]
+                if [tuple(x) for x in gd_] != [tuple(x) for x in cd_] or any(abs(a[0] - b[0]) > 1e-12 or abs(a[1] - b[1]) > 1e-12 or a[2] != b[2] for a, b in zip(gd_, want)):
+                    run.violation("e2e:grid-geometry", "abf with a custom grid block: the gradient file is on the grid %s, the count file on %s, configured %s: "
+                                  "mean forces and counts are binned on different grids" % (gd_, cd_, want), rep)
+            except (OSError, ValueError, IndexError):
+                pass
         pairs = [(".grad", ".pmf", ".count")] + ([(".czar.grad", ".czar.pmf", ".zcount")] if c.get("ext") else [])
         if c.get("ext"):
             run.dist("e2e:extended-lagrangian-czar")
